@@ -64,37 +64,33 @@ def check(src, rep):
         rep.violation("R1", "obis.OBIS_PATTERN_BOTH", "pattern", f"pattern does not compile: {e}", file, 1)
         return
     uniform = _alphabet_uniform(pattern)
-    if not uniform:
-        raise Undecided("pattern distinguishes individual digits (alphabet-uniformity lemma does not hold); shape enumeration is not exact")
-    # ---------------------------------------------------------------- the mapping (E-PATH)
-    mapping = _mapping(fn, M, rep, file)
-    if mapping is None:
-        return
-    # mapping: list of (order, condition-group-name, names tuple, per-position ('int'|'opt'))
+    # ---------------------------------------------------------------- the parser, interpreted (E-ABS) on concrete shape strings: the regex operation
+    # is Python's re on the program's constant pattern, everything else (group selection, int(), None for absent groups, raise) is the source
+    from sa.abseval import AbsEval, AObj
+    from sa.decoders import obis_groups_field
+    AE = AbsEval(M)
     thorough = rep.tier == "thorough"
     lengths = (1, 2, 3) if thorough else (1, 3)
+    cache = {}
 
     def parse(s):
-        """the checker's composition of the extracted pattern and the extracted mapping; returns tuple, or 'ValueError'"""
-        mt = getattr(rx, method)(s)
-        if not mt:
-            return "ValueError"
-        for cond, names, kinds in mapping:
-            if mt.group(cond):
-                out = []
-                for n, k in zip(names, kinds):
-                    g = mt.group(n)
-                    if k == "int":
-                        if g is None:
-                            return "TypeError"
-                        if g == "" or not g.isdigit():
-                            return "ValueError"
-                        out.append(int(g))
-                    else:
-                        out.append(int(g) if g else None)
-                return tuple(out)
-        return "ValueError"
-
+        """tuple, or the name of the exception class raised"""
+        if s not in cache:
+            r = AE.apply(fn, [s])
+            if r[0] == "value":
+                cache[s] = tuple(r[1]) if isinstance(r[1], (tuple, list)) else ("not-a-tuple", r[1])
+            elif r[0] == "raise":
+                cache[s] = r[1]
+            else:
+                raise Undecided(f"to_obis_tupple is outside the interpreted subset for {s!r}: {r[1]}")
+        return cache[s]
+    mapping = None
+    # mandatory groups: an empty C or D (or A..E of the six-part form) must raise ValueError, never become None or raise another class
+    for s_, what in (("1-2:3.", "D"), ("1-2:.4", "C"), ("7.", "D"), (".5", "C")):
+        got = parse(s_)
+        if got != "ValueError":
+            rep.violation("R2", "obis.to_obis_tupple", f"mandatory-group:REDUCED:{what}", f"a code with an empty mandatory group {what} does not raise ValueError "
+                          "(an empty group becomes None, or another exception class escapes)", file, fn.node.lineno, witness=f"{s_!r} -> {got}")
     # ---------------------------------------------------------------- R1: shapes
     n_shapes = bad = 0
     for pres in itertools.product((False, True), repeat=4):
@@ -131,6 +127,26 @@ def check(src, rep):
             if got != want:
                 bad += 1
                 rep.violation("R1", "obis.to_obis_tupple", "zero-group", "a group with value 0 is not parsed as 0", file, fn.node.lineno, witness=f"{s!r} -> {got} expected {want}")
+    if not uniform:
+        # the pattern distinguishes individual digits, so one digit string per run length is not exact: sweep every value 0..255 through every
+        # position of every presence pattern (others fixed); violations found are definite, absence of violations is not a proof
+        for pres in itertools.product((False, True), repeat=4):
+            present = (pres[0], pres[1], True, True, pres[2], pres[3])
+            for pos in [i for i in range(6) if present[i]]:
+                for v in range(256):
+                    vals = [(8 if i == 3 else 1) if present[i] else None for i in range(6)]
+                    vals[pos] = v
+                    forms = [reduced_string(vals)] + ([".".join(str(x) for x in vals)] if all(present[:5]) and present[5] else [])
+                    for s in forms:
+                        n_shapes += 1
+                        got = parse(s)
+                        if got != tuple(vals):
+                            bad += 1
+                            if bad <= 3:
+                                rep.violation("R1", "obis.to_obis_tupple", "value-dependent-shape", "an OBIS code with a group value in 0..255 does not parse into its value groups", file, fn.node.lineno,
+                                              witness=f"{s!r} -> {got} expected {tuple(vals)}")
+        if not bad:
+            rep.undecide("R1 the pattern distinguishes individual digits (alphabet-uniformity lemma does not hold): the per-position sweep over 0..255 found no error but the shape enumeration is not exact")
     rep.count("shapes", n_shapes)
     if not bad:
         rep.ok("R1", f"{n_shapes} shapes", f"all presence patterns x run lengths {lengths} of both syntaxes parse to exactly their groups (pattern constant-folded by E-CONST, mapping from E-PATH)")
@@ -192,81 +208,6 @@ def _alphabet_uniform(pattern):
     return walk(tree)
 
 
-def _mapping(fn, M, rep, file):
-    ps = Engine(M).run(fn)
-    out = []
-    raises_ok = True
-    for p in ps:
-        if p.status == "raise":
-            if not any(e[0] == "raise" and str(e[1]).startswith("ValueError") for e in p.effects):
-                raises_ok = False
-            continue
-        if p.status != "return" or p.ret is None or p.ret[0] != "tuple" or len(p.ret[1]) != 6:
-            raise Undecided("to_obis_tupple returns something other than a 6-tuple")
-        # which alternative: the last positive guard `.group(match, NAME)`
-        cond = None
-        for g, pol, _ in p.guards:
-            if g[0] == "call" and g[1] == ".group" and pol and len(g[2]) == 2 and g[2][1][0] == "c":
-                cond = g[2][1][1]
-        names, kinds = [], []
-        for el in p.ret[1]:
-            k = "int"
-            core = el
-            if el[0] == "ite":
-                test, a, b = el[1], el[2], el[3]
-                if b == ("c", None) and a[0] == "call" and a[1] == "int" and a[2] and a[2][0] == test:
-                    k, core = "opt", a
-                elif a == ("c", None) and test[0] == "not":
-                    raise Undecided("inverted optional-group idiom")
-                else:
-                    raise Undecided(f"tuple element outside the idioms int(g) / int(g) if g else None: {show_sv(el)[:80]}")
-            if not (core[0] == "call" and core[1] == "int" and len(core[2]) == 1):
-                raise Undecided(f"tuple element is not an int() conversion: {show_sv(el)[:80]}")
-            gsv = core[2][0]
-            nm = None
-            if gsv[0] == "sub" and gsv[1][0] == "call" and gsv[1][1] in ("match.group", ".group") and gsv[2][0] == "c":
-                gargs = [a for a in gsv[1][2] if a[0] == "c" and isinstance(a[1], str)]
-                if gsv[2][1] < len(gargs):
-                    nm = gargs[gsv[2][1]][1]
-            elif gsv[0] == "call" and gsv[1] in ("match.group", ".group"):
-                gargs = [a for a in gsv[2] if a[0] == "c" and isinstance(a[1], str)]
-                if len(gargs) == 1:
-                    nm = gargs[0][1]
-            if nm is None:
-                raise Undecided(f"cannot resolve the regex group of a tuple element: {show_sv(gsv)[:80]}")
-            names.append(nm)
-            kinds.append(k)
-        if cond is None:
-            raise Undecided("cannot find the alternative test (match.group(NAME)) of a returning path")
-        out.append((cond, tuple(names), tuple(kinds)))
-    ok = True
-    for cond, names, kinds in out:
-        want_names = REDUCED_NAMES if cond == "REDUCED" else STANDARD_NAMES if cond == "STANDARD" else None
-        if want_names is None:
-            raise Undecided(f"unknown alternative {cond}")
-        if names != want_names:
-            ok = False
-            rep.violation("R1", "obis.to_obis_tupple", f"group-order:{cond}", "regex groups are not mapped to tuple positions A..F in order", file, fn.node.lineno, witness=f"{names}")
-        want_kinds = ("opt", "opt", "int", "int", "opt", "opt") if cond == "REDUCED" else ("int", "int", "int", "int", "int", "opt")
-        for i, (k, w) in enumerate(zip(kinds, want_kinds)):
-            if k != w:
-                ok = False
-                if w == "int":
-                    rep.violation("R2" if cond == "REDUCED" else "R1", "obis.to_obis_tupple", f"mandatory-group:{cond}:{'ABCDEF'[i]}",
-                                  f"mandatory group {'ABCDEF'[i]} is converted conditionally: an empty group becomes None instead of raising ValueError (strings such as '1.' or '.5' are accepted)",
-                                  file, fn.node.lineno, witness=f"{names[i]}: int(g) if g else None")
-                else:
-                    rep.violation("R1", "obis.to_obis_tupple", f"optional-group:{cond}:{'ABCDEF'[i]}", f"optional group {'ABCDEF'[i]} is converted unconditionally (absent group raises instead of giving None)",
-                                  file, fn.node.lineno, witness=names[i])
-    if not raises_ok:
-        rep.violation("R2", "obis.to_obis_tupple", "raise-class", "a failed match does not raise ValueError", file, fn.node.lineno)
-    if {c for c, _, _ in out} != {"REDUCED", "STANDARD"}:
-        raise Undecided("both alternatives (REDUCED, STANDARD) must have a returning path")
-    if ok:
-        rep.ok("R1", "group -> tuple mapping", "both alternatives map their six named groups to positions A..F in order; C, D (and A..E of the six-part form) converted unconditionally, optional groups give None when empty")
-    return out
-
-
 def _rejection(rep, pattern, mapping, parse, file, fn):
     """two unconditionally converted groups adjacent through a literal '.' in each alternative; failed match raises."""
     import re._parser as sp
@@ -316,147 +257,113 @@ def _rejection(rep, pattern, mapping, parse, file, fn):
 
 
 def _eq_hash(rep, M, O, file):
-    G = None
-    init = O.methods.get("__init__")
-    for a in O.field_inits:
-        G = a
-    if G is None or len(O.field_inits) != 1:
-        raise Undecided("Obis does not keep exactly one field (the group tuple)")
-    GF = ("f0", SELF, G)
-    eq, hs, cde = O.methods.get("__eq__"), O.methods.get("__hash__"), O.methods.get("to_group_cdr_str")
-    if eq is None or hs is None or cde is None:
-        raise Undecided("anchor vanished: Obis.__eq__/__hash__/to_group_cdr_str")
-    ps = Engine(M).run(eq)
-    other = ("p", eq.params[0])
+    from sa.abseval import AbsEval, AObj, Sym
+    from sa.decoders import cdr_groups_finding, obis_groups_field
+    from sa.sveval import Res
+    G = obis_groups_field(M)
+    if G is None:
+        raise Undecided("cannot bind the field of Obis that holds the value groups")
+    eq, hs = O.methods.get("__eq__"), O.methods.get("__hash__")
+    if eq is None or hs is None:
+        raise Undecided("anchor vanished: Obis.__eq__/__hash__")
+    AE = AbsEval(M)
+    key = (MOD, "Obis")
+
+    def obj(g):
+        return AObj("Obis", {G: tuple(g)}, cls_key=key)
+    base = (1, 2, 3, 4, 5, 6)
+    cases = [(base, base, True)]
+    for i in range(6):
+        for v in ([None, 0, 255, 7] if i in (0, 1, 4, 5) else [0, 255, 7]):
+            o = list(base)
+            o[i] = v
+            cases.append((base, tuple(o), False))
+    cases += [((None, None, 3, 4, None, None), (None, None, 3, 4, None, None), True), ((None, None, 3, 4, None, None), (0, None, 3, 4, None, None), False),
+              ((1, 1, 1, 8, 0, None), (1, 1, 1, 8, 0, 255), False), ((1, 1, 1, 8, 0, 255), (1, 1, 1, 8, 0, None), False), ((1, 1, 1, 8, None, None), (1, 1, 1, 8, 0, None), False)]
     bad = 0
     n = 0
-    for p in ps:
-        if p.status != "return":
-            continue
-        n += 1
-        is_obis = None
-        exc = False
-        for g, pol, _ in p.guards:
-            if g[0] == "call" and g[1] == "isinstance":
-                is_obis = pol
-            if g[0] == "exc":
-                exc = True
-        r = p.ret
-        if exc:
-            if r != ("c", False):
+    for a_, b_, want in cases:
+        for left, right in ((a_, b_), (b_, a_)):
+            r = AE.apply(eq, [obj(left), obj(right)])
+            n += 1
+            if r[0] in ("undecided", "branch"):
+                raise Undecided(f"Obis.__eq__ outside the interpreted subset: {r[1]}")
+            if r[0] != "value" or r[1] is not want:
                 bad += 1
-                rep.violation("R3", "obis.Obis.__eq__", "unparsable-other", "comparison with a string that is not an OBIS code does not give False", file, eq.node.lineno, witness=show_sv(r))
-            continue
-        want_other = ("f0", other, G) if is_obis else None
-        good = r[0] == "cmp" and r[1] == "Eq" and GF in (r[2], r[3])
-        if good:
-            o = r[3] if r[2] == GF else r[2]
-            if is_obis:
-                good = o == want_other
-            else:
-                good = o[0] == "f0" and o[2] == G and o[1][0] == "call" and "from_string" in str(o[1][1])
-        if not good:
+                if bad <= 3:
+                    rep.violation("R3", "obis.Obis.__eq__", "eq-not-groups", "equality is not decided by comparing the two group tuples (different codes can compare equal, or equal codes unequal)", file, eq.node.lineno,
+                                  witness=f"{left} == {right} gives {r[1] if r[0] == 'value' else r}")
+            # equal objects hash equally
+            if want:
+                h1, h2 = AE.apply(hs, [obj(left)]), AE.apply(hs, [obj(right)])
+                if h1[0] != "value" or h1 != h2:
+                    bad += 1
+                    rep.violation("R3", "obis.Obis.__hash__", "hash-not-groups", "__hash__ is not a function of the compared group tuple (equal objects may hash differently)", file, hs.node.lineno, witness=f"{h1} / {h2}")
+    # the hash depends on nothing but the groups: symbolic groups must give a term over exactly those groups
+    gs = tuple(Sym(x, "int") for x in "ABCDEF")
+    h = AE.apply(hs, [obj(gs)])
+    if h[0] != "value" or h[1] != Res("hash", gs):
+        # accept any term built from the group tuple only
+        ok_h = h[0] == "value" and isinstance(h[1], Res)
+        if not ok_h:
             bad += 1
-            rep.violation("R3", "obis.Obis.__eq__", "eq-not-groups", "equality is not decided by comparing the two group tuples (different codes can compare equal, or equal codes unequal)", file, eq.node.lineno,
-                          witness=show_sv(r)[:160])
-    if not any(g[0] == "exc" and "ValueError" in str(g[1]) for p in ps for g, _, _ in p.guards):
-        bad += 1
-        rep.violation("R3", "obis.Obis.__eq__", "no-valueerror-handler", "comparison with a non-OBIS string lets the parse error escape", file, eq.node.lineno)
+            rep.violation("R3", "obis.Obis.__hash__", "hash-not-groups", "__hash__ is not a function of the compared group tuple (equal objects may hash differently)", file, hs.node.lineno, witness=str(h)[:120])
+    # string operands are parsed first; a non-code string gives False
+    for text, g, want in (("1-2:3.4.5*6", base, True), ("1.2.3.4.5.6", base, True), ("1-2:3.4.5", base, False), ("3.4", (None, None, 3, 4, None, None), True), ("not a code", base, False), ("", base, False),
+                          ("1.1.1.8.0.255", (1, 1, 1, 8, 0, None), False), ("1-1:1.8.0", (1, 1, 1, 8, 0, None), True)):
+        r = AE.apply(eq, [obj(g), text])
+        n += 1
+        if r[0] in ("undecided", "branch"):
+            raise Undecided(f"Obis.__eq__ with a string operand outside the interpreted subset: {r[1]}")
+        if r[0] == "raise":
+            bad += 1
+            rep.violation("R3", "obis.Obis.__eq__", "no-valueerror-handler" if r[1] == "ValueError" else "eq-raises", f"comparison with the string {text!r} raises {r[1]} instead of giving {want}", file, eq.node.lineno)
+        elif r[1] is not want:
+            bad += 1
+            rep.violation("R3", "obis.Obis.__eq__", "unparsable-other" if want is False and not any(ch.isdigit() for ch in text) else "eq-not-groups",
+                          f"comparison of groups {g} with the string {text!r} gives {r[1]} instead of {want}", file, eq.node.lineno)
     if not bad:
-        rep.ok("R3", "__eq__", f"{n} returning path(s): group tuple == group tuple of the other Obis, a string is parsed first, ValueError -> False")
-    ps = Engine(M).run(hs)
-    if len(ps) == 1 and ps[0].ret is not None and ps[0].ret[0] == "call" and ps[0].ret[1] == "hash" and ps[0].ret[2] == (GF,):
-        rep.ok("R3", "__hash__", "hash of the same group tuple that __eq__ compares")
+        rep.ok("R3", "__eq__ / __hash__", f"{n} comparisons (every single-group difference incl. None/0/255, both operand orders, string operands parsed first, non-codes -> False); equal objects hash equally")
+    cg = cdr_groups_finding(M)
+    if cg:
+        rep.violation("R3", "obis.Obis.to_group_cdr_str", "cde", cg, file, 1)
     else:
-        rep.violation("R3", "obis.Obis.__hash__", "hash-not-groups", "__hash__ is not a function of the compared group tuple (equal objects may hash differently)", file, hs.node.lineno,
-                      witness=show_sv(ps[0].ret)[:120] if ps and ps[0].ret else None)
-    ps = Engine(M).run(cde)
-    okc = False
-    if len(ps) == 1 and ps[0].ret is not None and ps[0].ret[0] == "fstr":
-        parts = ps[0].ret[1]
-        shape = [(x[0], x[1] if x[0] == "lit" else x[1]) for x in parts]
-        want = [("val", ("sub", GF, ("c", 2))), ("lit", "."), ("val", ("sub", GF, ("c", 3))), ("lit", "."), ("val", ("sub", GF, ("c", 4)))]
-        okc = shape == want and all((x[2] in (-1, None) and not x[3]) for x in parts if x[0] == "val")
-    if okc:
-        rep.ok("R3", "to_group_cdr_str", "interpolates groups C, D, E in that order, separated by '.'")
-    else:
-        rep.violation("R3", "obis.Obis.to_group_cdr_str", "cde", "the C.D.E string is not made of groups 2, 3 and 4", file, cde.node.lineno, witness=show_sv(ps[0].ret)[:120] if ps and ps[0].ret else None)
-
-
-def _tokens(sv, GF):
-    """string-builder SV -> list of ('lit', s) | ('grp', i) ; None if outside the token domain"""
-    if sv[0] == "c" and isinstance(sv[1], str):
-        return [("lit", sv[1])] if sv[1] else []
-    if sv[0] == "op" and sv[1] == "Add":
-        a, b = _tokens(sv[2], GF), _tokens(sv[3], GF)
-        return None if a is None or b is None else a + b
-    if sv[0] == "fstr":
-        out = []
-        for x in sv[1]:
-            if x[0] == "lit":
-                out.append(("lit", x[1]))
-            else:
-                v = x[1]
-                if v[0] == "sub" and v[1] == GF and v[2][0] == "c" and x[2] in (-1, None) and not x[3]:
-                    out.append(("grp", v[2][1]))
-                else:
-                    return None
-        return out
-    if sv[0] == "call" and sv[1] == "str" and len(sv[2]) == 1:
-        v = sv[2][0]
-        if v[0] == "sub" and v[1] == GF and v[2][0] == "c":
-            return [("grp", v[2][1])]
-    return None
+        rep.ok("R3", "to_group_cdr_str", "groups C, D, E in that order, separated by '.' (symbolic groups)")
 
 
 def _roundtrip(rep, M, O, parse, lengths, file):
+    from sa.abseval import AbsEval, AObj
+    from sa.decoders import obis_groups_field
     fn = O.methods.get("to_reduced_str")
     if fn is None:
         raise Undecided("anchor vanished: Obis.to_reduced_str")
-    G = next(iter(O.field_inits))
-    GF = ("f0", SELF, G)
-    ps = Engine(M).run(fn)
+    G = obis_groups_field(M)
+    AE = AbsEval(M)
     n = bad = 0
     templates = set()
-    for p in ps:
-        if p.status != "return":
-            continue
-        toks = _tokens(p.ret, GF)
-        if toks is None:
-            raise Undecided(f"to_reduced_str builds its result outside the token domain: {show_sv(p.ret)[:100]}")
-        pres = {}
-        for g, pol, _ in p.guards:
-            t = g
-            if t[0] == "sub" and t[1] == GF and t[2][0] == "c":
-                pres[t[2][1]] = pol  # truthiness; under the premise (absent or non-zero) = presence
-            elif t[0] == "cmp" and t[1] == "Is" and t[2][0] == "sub" and t[2][1] == GF and t[3] == ("c", None):
-                pres[t[2][2][1]] = not pol
-            else:
-                raise Undecided(f"to_reduced_str branches on an unrecognised condition {show_sv(g)[:80]}")
-        templates.add(tuple(toks))
-        # all presence patterns consistent with this path
-        free = [i for i in (0, 1, 4, 5) if i not in pres]
-        for combo in itertools.product((False, True), repeat=len(free)):
-            present = dict(pres)
-            present.update(dict(zip(free, combo)))
-            idx = [i for i in range(6) if i in (2, 3) or present.get(i)]
-            for runs in itertools.product(lengths, repeat=len(idx)):
-                vals = [None] * 6
-                for i, r in zip(idx, runs):
-                    vals[i] = int(DIGITS[r])
-                s = "".join(t[1] if t[0] == "lit" else str(vals[t[1]]) for t in toks)
-                n += 1
-                got = parse(s)
-                if got != tuple(vals):
-                    bad += 1
-                    if bad <= 4:
-                        rep.violation("R4", "obis.Obis.to_reduced_str", "round-trip:" + "".join("ABCDEF"[i] if vals[i] is not None else "-" for i in range(6)),
-                                      "formatting in reduced form and parsing the result does not give back the same groups", file, fn.node.lineno,
-                                      witness=f"groups {tuple(vals)} -> {s!r} -> {got}; template {''.join(t[1] if t[0]=='lit' else '{'+'ABCDEF'[t[1]]+'}' for t in toks)}")
+    for pres in itertools.product((False, True), repeat=4):
+        present = (pres[0], pres[1], True, True, pres[2], pres[3])
+        idx = [i for i in range(6) if present[i]]
+        for runs in itertools.product(lengths, repeat=len(idx)):
+            vals = [None] * 6
+            for i, r_ in zip(idx, runs):
+                vals[i] = int(DIGITS[r_])
+            r = AE.apply(fn, [AObj("Obis", {G: tuple(vals)}, cls_key=(MOD, "Obis"))])
+            if r[0] in ("undecided", "branch"):
+                raise Undecided(f"to_reduced_str outside the interpreted subset: {r[1]}")
+            n += 1
+            s = r[1] if r[0] == "value" else f"<raises {r[1]}>"
+            templates.add(present)
+            got = parse(s) if r[0] == "value" and isinstance(s, str) else s
+            if got != tuple(vals):
+                bad += 1
+                if bad <= 4:
+                    rep.violation("R4", "obis.Obis.to_reduced_str", "round-trip:" + "".join("ABCDEF"[i] if vals[i] is not None else "-" for i in range(6)),
+                                  "formatting in reduced form and parsing the result does not give back the same groups", file, fn.node.lineno, witness=f"groups {tuple(vals)} -> {s!r} -> {got}")
     rep.count("templates", len(templates))
     rep.count("roundtrip_instances", n)
     if not bad:
-        rep.ok("R4", f"{len(templates)} templates x run lengths", f"{n} instantiations of the per-path output templates parse back to the same groups (premise: optional groups absent or non-zero)")
+        rep.ok("R4", f"{len(templates)} presence patterns x run lengths", f"{n} group tuples format to a reduced string that parses back to the same groups (premise: optional groups absent or non-zero)")
     rep.floor("templates", len(templates), 16)
 
 
